@@ -129,7 +129,7 @@ def _check_packed(p, cls, fields, raw: bytes):
 def _repack(p) -> Optional[str]:
     try:
         return hx(p.pack())
-    except (ValueError, struct.error):
+    except (ValueError, struct.error, OverflowError):
         return None
 
 
@@ -145,7 +145,7 @@ def _pack_fails(p) -> Dict[str, Any]:
     """C06 'fss_overflow' clause: a value that does not fit makes pack() fail, whatever the class"""
     try:
         raw = bytes(p.pack())
-    except (ValueError, struct.error):
+    except (ValueError, struct.error, OverflowError):
         return {"failed": True}
     return {"failed": False, "_raw": hx(raw)}
 
